@@ -533,7 +533,7 @@ VIOLS = {}
 
 
 def violation(vid, **detail):
-    """buffered, so that R.violation (which keeps the first five ids) sees unknown failures first"""
+    """buffered, so that R.violation (which keeps a bounded number of ids) sees unknown failures first"""
     VIOLS.setdefault(vid, detail)
 
 
